@@ -216,6 +216,7 @@ class History(Sub):
         M = R.mat4(lt, np.array(case["x0"]))
         n = 0
         smax = max(1.0, float(np.abs(M).max()))
+        invmax, drift = 1.0, 0.0
         used = set()
         td = tu.TD[dtype]
         for blk in case["blocks"]:
@@ -274,7 +275,14 @@ class History(Sub):
                 if not rec.check(s > 0, "history:scale", "step %d (%s): scale %r not positive" % (n, rule, s)):
                     return
                 err = float(np.abs(R.mat4(lt, Xn) - M).max())
-                tol = 256 * eps * (1 + n) * smax * max(1.0, float(np.abs(np.linalg.inv(M)).max()) if rule == "inv" else 1.0)
+                if rule == "inv":
+                    # Inv of SE3 / Sim3 does not renormalise the quaternion: with |q|^2 - 1 = d every Inv adds d (R - I) t to the
+                    # translation - a systematic drift (valid within "up to accumulated round-off", but not linear in n), and the
+                    # amplification by |M^-1| of an inv step stays with the element afterwards (found by the false-alarm audit:
+                    # ratio 0.43 on a constructed in-domain history, predicted to grow like n^1.5)
+                    invmax = max(invmax, float(np.abs(np.linalg.inv(M)).max()))
+                    drift += 4 * abs(float(np.dot(q, q)) - 1.0) * (float(np.abs(t).max()) if len(t) else 0.0) * invmax
+                tol = 256 * eps * (1 + n) * smax * max(1.0, invmax) + drift
                 rec.notes["mdrift/n"] = max(rec.notes.get("mdrift/n", 0), err / tol)
                 if not rec.check(err <= tol, "history:matrix:%s:%s" % (lt, dtype),
                                  "step %d (%s): element's matrix deviates from the float64 model by %.3g > %.3g" % (n, rule, err, tol)):
